@@ -811,6 +811,10 @@ pub fn c09_strategy(_ctx: &Ctx, for_c05: bool) -> BoxedStrategy<C09Case> {
     1 => Just(vec![Op::ObserveOnNew, Op::ObserveOnNew]),
     1 => Just(vec![Op::SubscribeOnNew, Op::ObserveOnNew]),
     1 => Just(vec![Op::SubscribeOnNew, Op::SubscribeOnNew]),
+    // an operator that ends the stream by itself between two workers: its completion is
+    // posted to the second worker by a task of the first one, which it has just stopped
+    1 => (1usize..=2).prop_map(|n| vec![Op::ObserveOnNew, Op::Take(n), Op::ObserveOnNew]),
+    1 => (1usize..=2).prop_map(|n| vec![Op::SubscribeOnNew, Op::Take(n), Op::ObserveOnNew]),
   ];
   // C09 only: the subscriber's n-th callback (on the scheduler's thread) pushes one more item
   // into the hot source - an emission from the worker itself must be queued like any other
@@ -823,7 +827,8 @@ pub fn c09_strategy(_ctx: &Ctx, for_c05: bool) -> BoxedStrategy<C09Case> {
   (pre, sched_ops, post, len, 0u8..=2, any::<bool>(), prop::option::weighted(if for_c05 { 0.97 } else { 0.35 }, 0u8..=3), sched_strategy(), reentrant, self_unsub)
     .prop_map(move |(pre, mid, post, len, ending, hot, unsub, sched, reentrant, self_unsub)| {
       let subscribe_on = mid.contains(&Op::SubscribeOnNew);
-      let reentrant = if hot && !subscribe_on && !for_c05 { reentrant } else { None };
+      let ends_early = mid.iter().any(|o| matches!(o, Op::Take(_)));
+      let reentrant = if hot && !subscribe_on && !for_c05 && !ends_early { reentrant } else { None };
       let order_free = |op: &Op| matches!(op, Op::Map(_) | Op::Filter(_));
       let (pre, post): (Vec<Op>, Vec<Op>) = if reentrant.is_some() {
         (pre.into_iter().filter(order_free).collect(), post.into_iter().filter(order_free).collect())
@@ -1215,6 +1220,80 @@ fn c05_plain_check(_ctx: &Ctx, c: &C05Case) -> Report {
     }
   }
   rep
+}
+
+// ---------------------------------------------------------------------------------------
+// C14 across threads: the same Observable value subscribed by two threads at the same time
+
+#[derive(Clone, Debug, Serialize, Deserialize)]
+pub struct C14ConcCase {
+  pub cc: ConcCase,
+}
+
+pub fn c14_conc_strategy(_ctx: &Ctx) -> BoxedStrategy<C14ConcCase> {
+  // single-source operators over synchronous sources: nothing in the pipeline depends on a
+  // thread or on time, so each subscription is a function of the pipeline alone
+  let cfg = crate::gen::GenCfg { max_script: 5, ..crate::gen::GenCfg::default() };
+  (crate::gen::chain(&cfg, 1, 3), sched_strategy())
+    .prop_map(|(root, sched)| {
+      let case = Case { root, hots: vec![], hot_illformed: false, conn: None, conn_take: None, recorders: vec![vec![], vec![]], actions: vec![] };
+      C14ConcCase { cc: ConcCase { case, threads: vec![vec![Action::Subscribe(0)], vec![Action::Subscribe(1)]], sched } }
+    })
+    .boxed()
+}
+
+pub fn c14_conc_check(_ctx: &Ctx, c: &C14ConcCase) -> Report {
+  let mut rep = Report::ok();
+  rep.classes = super::seq_inv::op_classes(&c.cc.case);
+  // what one subscription, alone, receives (reference interpreter)
+  let mut alone = c.cc.case.clone();
+  alone.recorders = vec![vec![]];
+  alone.actions = vec![Action::Subscribe(0)];
+  let expected: Vec<Vec<Rk>> = crate::model::Conv::all()
+    .into_iter()
+    .filter_map(|cv| crate::model::run_model_opt(&alone, cv, false).ok().map(|m| m.traces[0].clone()))
+    .collect();
+  if expected.is_empty() {
+    rep.classes.push("model-unsupported".into());
+    return rep;
+  }
+  let r = run_cc(&c.cc, 100);
+  rep.sample = Some(render_cc(&c.cc, &r));
+  if let Some(k) = hung(&r) {
+    if let Some(p) = crate_panic(&r.outcome) {
+      rep.fail = Some(format!("{} | {}", p, render_cc(&c.cc, &r)));
+      return rep;
+    }
+    rep.classes.push(format!("aborted:{}", k));
+    return rep;
+  }
+  // non-trivial: the two subscribe calls overlapped
+  let overlapped = match (r.log.sub_marks.get(0).copied().flatten(), r.log.sub_marks.get(1).copied().flatten()) {
+    (Some(a), Some(b)) => a.0 < b.1 && b.0 < a.1,
+    _ => false,
+  };
+  rep.nontrivial = overlapped;
+  if overlapped {
+    rep.classes.push("the-two-subscribe-calls-overlapped".into());
+  }
+  for k in 0..2 {
+    let got: Vec<Rk> = ordered(&r.log.recs[k]).iter().map(|e| e.k.clone()).collect();
+    if !expected.contains(&got) {
+      rep.fail = Some(format!(
+        "subscriber {} (of two threads subscribing the same observable at once) received {}, a subscriber on its own receives {} | {}",
+        k,
+        show_trace(&got),
+        show_trace(&expected[0]),
+        render_cc(&c.cc, &r)
+      ));
+      return rep;
+    }
+  }
+  rep
+}
+
+pub fn sub_c14_conc() -> Sub {
+  mk_sub("conc", (500, 10_000), c14_conc_strategy, c14_conc_check)
 }
 
 pub fn c05_conc_subs() -> Vec<Sub> {
